@@ -1,3 +1,4 @@
+import Cctp.Lemmas.Batch
 import Cctp.Spec.Roles
 import Cctp.Lemmas.Typed
 /-
@@ -209,5 +210,14 @@ example : let ext : Ext := ⟨id, fun _ _ => none, fun b => some b, fun b => som
     roleRun ext ⟨some [1], none, some [3], some [4], some [5]⟩
       [([], .updateOwner [1] [2]), ([], .acceptOwner [1]), ([], .acceptOwner [2]), ([], .acceptOwner [2])]
     = ⟨some [2], none, some [3], some [4], some [5]⟩ := by decide
+
+
+/-- over multi-message transactions the roles are those the automaton reaches on the messages of the committed
+    transactions (so `UpdateOwner` and the nominee's `AcceptOwner` may share a transaction, and a role change
+    inside a transaction that fails never happened). -/
+theorem roles_refine_txs (ext : Ext) (cfg : Cfg) (txs : List Txn) (w : World) (hs : w.settle = w) (hg : Good ext w.store) :
+    abs (runTxs ext cfg w txs).1.store = roleRun ext (abs w.store) (committed ext cfg w txs) := by
+  rw [runTxs_flatten ext cfg txs w hs]
+  exact roles_refine_run ext cfg _ w hg
 
 end Cctp.C11
